@@ -93,6 +93,13 @@ def run_triple(sh, es, db, terms):
     fs = [t[2] for t in terms]
     all_differ = all(not rel_close(fs[i], fs[j], 1e-9) for i in range(3) for j in range(i + 1, 3))
     nonzero = all(t[1] != 0 for t in terms)
+    # A partial sum that is (numerically) zero is dimension-free by numbat's zero convention and
+    # legitimately drops its unit: `0 + c` is displayed as `c`. The property demands a common
+    # unit only for non-zero operands, so such triples are judged by value only.
+    for i in range(3):
+        for j in range(i + 1, 3):
+            if close_sum(nadd(terms[i][1], terms[j][1]), exact(0.0), max(abs(terms[i][1]), abs(terms[j][1])) * 1000):
+                nonzero = False
     probs = []
     for c, r in zip(codes, rs):
         if not close_sum(db.base_value(r["value"]), model, scale):
